@@ -445,6 +445,23 @@ func mirrorMain(args mon.Args) {
 	}
 	wg.Wait()
 	_ = replayW
+	// mirroring towards a target nothing can be sent to: the mirror workers give up, the mirror queues fill and every
+	// further copy is refused - "mirroring never changes what is decoded and published" must hold there too
+	if args.Replay == "" {
+		for _, idx := range []int{4, 7} { // the alias scenarios of ipfix and sflow with the unreachable mirror target
+			sc := buildScenario(run.Seed, "alias", idx, false)
+			if !sc.DeadMirror {
+				run.HarnessError(fmt.Sprintf("alias scenario %d is not a dead-mirror scenario any more", idx))
+				continue
+			}
+			ro := runDriver(&sc.Sc, filepath.Join(dir, fmt.Sprintf("deadmirror%d", idx)), false, "")
+			run.Eval(1)
+			run.Distinct("dead-mirror|" + sc.Sc.Proto)
+			checkPublished(run, "C12", sc, ro, idx, "mirror")
+			checkPublished(run, "C13", sc, ro, idx, "mirror")
+			run.Add("datagrams_fed_with_the_mirror_queues_full", int64(len(sc.Fed)))
+		}
+	}
 	// canary: the packet validator must reject a wrong total length
 	{
 		f := &mirrorFed{1, []byte{10, 0, 0, 1}, []byte{1, 2, 3, 4, 5}}
